@@ -17,6 +17,11 @@ import ast
 STDLIB = {
     "threading.Timer": ["interval", "function", "args", "kwargs"],
 }
+# calls written with keywords by convention: canonical form = all keywords in signature order, arguments that state the
+# default dropped (threading.Thread(None, f, "n") == threading.Thread(target=f, name="n"))
+STDLIB_KEYWORD_FORM = {
+    "threading.Thread": (["group", "target", "name", "args", "kwargs"], {"group": "None", "args": "()", "kwargs": "None", "daemon": "None"}),
+}
 STDLIB_METHODS = {
     # (attribute name, frozenset of keyword names seen) -> parameter order
     "get": ["block", "timeout"],
@@ -118,6 +123,23 @@ def canonicalise(repo, modules):
             return all(v is not None and is_dict(v, fn, cls, depth + 1) for v in values)
         return False
 
+    def keyword_form(call: ast.Call) -> bool:
+        from .model import dotted
+
+        d = dotted(call.func)
+        if d not in STDLIB_KEYWORD_FORM or any(isinstance(a, ast.Starred) for a in call.args) or any(k.arg is None for k in call.keywords):
+            return False
+        names, defaults = STDLIB_KEYWORD_FORM[d]
+        if len(call.args) > len(names):
+            return False
+        kws = [ast.keyword(arg=n, value=a) for n, a in zip(names, call.args)] + list(call.keywords)
+        kws = [k for k in kws if not (k.arg in defaults and ast.unparse(k.value) in (defaults[k.arg], "{}" if k.arg == "kwargs" else defaults[k.arg]))]
+        kws = [k for k in kws if k.arg != "name"]  # a thread's name is a label for logs and debuggers, no rule or model depends on it
+        order = {n: i for i, n in enumerate(names)}
+        call.args = []
+        call.keywords = sorted(kws, key=lambda k: (order.get(k.arg, len(names)), k.arg))
+        return True
+
     def rewrite(call: ast.Call, mod, cls, fn=None):
         # d.update(**kwargs) -> d.update(kwargs): the keys of a function's own **kwargs are strings
         f = call.func
@@ -127,6 +149,15 @@ def canonicalise(repo, modules):
             call.args = [call.keywords[0].value]
             call.keywords = []
             return
+        # **name, name bound once in this function to a dict display and used nowhere else: the display itself
+        import copy as _copy
+
+        for k in call.keywords:
+            if k.arg is None and isinstance(k.value, ast.Name) and fn is not None:
+                uses = [n for n in ast.walk(fn) if isinstance(n, ast.Name) and n.id == k.value.id]
+                defs = [n for n in ast.walk(fn) if isinstance(n, ast.Assign) and len(n.targets) == 1 and isinstance(n.targets[0], ast.Name) and n.targets[0].id == k.value.id]
+                if len(uses) == 2 and len(defs) == 1 and isinstance(defs[0].value, ast.Dict) and fn.args.kwarg is None or (fn is not None and len(uses) == 2 and len(defs) == 1 and isinstance(defs[0].value, ast.Dict) and fn.args.kwarg.arg != k.value.id):
+                    k.value = _copy.deepcopy(defs[0].value)
         # **{'a': x} -> a=x
         kws = []
         for k in call.keywords:
@@ -135,6 +166,8 @@ def canonicalise(repo, modules):
             else:
                 kws.append(k)
         call.keywords = kws
+        if keyword_form(call):
+            return
         if not call.keywords or any(isinstance(a, ast.Starred) for a in call.args) or any(k.arg is None for k in call.keywords):
             return
         sig = signature_of(call, mod, cls)
